@@ -586,9 +586,11 @@ def project_schema(sc, run):
     out = [{"e": "reset", "names": names, "types": types, "lens": lens, "ev": ev}]
     last_tid = -1
     tid = None
+    tfp = last_tfp = None
     for e in run:
         if e["ev"] == "adapt":
             tid = e["tid"]
+            tfp = e.get("tfp")
         elif e["ev"] == "draw_out" and e["res"] == "ok":
             st = []
             for name, v in e["stats"]:
@@ -610,8 +612,14 @@ def project_schema(sc, run):
                 if nm in pres and flag in stg and pres[nm] != bool(stg[flag]):
                     flagok = False
             changed = (tid is not None and tid != last_tid and "flow" not in sc["preset"])
+            # ... or, whatever the transformation's own change counter says, when what it does to a fixed probe point
+            # differs from what it did after the previous draw (fingerprint from the adapt hook)
+            if tfp is not None and last_tfp is not None and tfp != last_tfp and "flow" not in sc["preset"]:
+                changed = True
             if tid is not None:
                 last_tid = tid
+            if tfp is not None:
+                last_tfp = tfp
             out.append({"e": "draw", "st": st, "diverging": bool(diverging), "changed": bool(changed),
                         "counter": sval(e["stats"], "draw"), "chain": sval(e["stats"], "chain"), "flagok": bool(flagok) and bool(divok)})
     return out
@@ -649,6 +657,7 @@ def project_mclmc(sc, run):
     out = [{"e": "reset", "tk": tk, "switchDraw": switch_draw}]
     eshok = True
     nesh = 0
+    fresh = False
     for e in run:
         k = e["ev"]
         if k == "esh":
@@ -693,6 +702,7 @@ def project_mclmc(sc, run):
             eshok = True
         elif k == "mstep":
             fexp = int(round(-math.log2(e["factor"])))
+            fresh = False
             line = {"e": "mstep", "res": e["res"], "fexp": fexp, "remaining": e["remaining"], "depth": e["depth"],
                     "steps": e["steps"], "eshok": eshok, "unit": True}
             if e["res"] == "ok":
@@ -702,11 +712,14 @@ def project_mclmc(sc, run):
                 line["unit"] = (abs(vn - 1.0) <= 1e-9) if micro else True
             out.append(line)
             eshok = True
+        elif k == "momentum":
+            # a momentum drawn inside the kernel (after the steps): fresh iff it was resampled
+            fresh = bool(e.get("resample"))
         elif k == "mend":
             micro = next((x for x in reversed(out) if x["e"] == "mstart"), {}).get("kind") == "Microcanonical"
             vn = f_from_bits(e["vnorm2"])
             out.append({"e": "mend", "div": e["div"], "steps": e["steps"], "ph": e["ph"],
-                        "unit": (abs(vn - 1.0) <= 1e-9) if micro else True})
+                        "unit": (abs(vn - 1.0) <= 1e-9) if micro else True, "fresh": bool(fresh)})
         elif k == "draw_out" and e["res"] == "ok":
             out.append({"e": "out", "numsteps": e["progress"]["num_steps"], "snumsteps": sval(e["stats"], "num_steps"),
                         "diverging": e["progress"]["diverging"], "ph": e["ph"]})
